@@ -224,16 +224,32 @@ type RawSPS struct {
 	Vui                      RawVUI
 }
 
+// cropUnits 裁剪偏移的单位（H.264 7.4.2.1.1）：
+// ChromaArrayType 为 0 时 CropUnitX = 1，CropUnitY = 2 - frame_mbs_only_flag；
+// 否则 CropUnitX = SubWidthC，CropUnitY = SubHeightC * (2 - frame_mbs_only_flag)
+func (sps *RawSPS) cropUnits() (cropUnitX, cropUnitY int) {
+	subWidthC, subHeightC := 1, 1
+	if sps.SeparateColourPlaneFlag == 0 {
+		switch sps.ChromaFormatIdc {
+		case 1:
+			subWidthC, subHeightC = 2, 2
+		case 2:
+			subWidthC, subHeightC = 2, 1
+		}
+	}
+	return subWidthC, subHeightC * (2 - int(sps.FrameMbsOnlyFlag))
+}
+
 // Width 视频宽度（像素）
 func (sps *RawSPS) Width() int {
-	w := (sps.PicWidthInMbsMinus1+1)*16 - sps.FrameCropLeftOffset*2 - sps.FrameCropRightOffset*2
-	return int(w)
+	cropUnitX, _ := sps.cropUnits()
+	return (int(sps.PicWidthInMbsMinus1)+1)*16 - cropUnitX*(int(sps.FrameCropLeftOffset)+int(sps.FrameCropRightOffset))
 }
 
 // Height 视频高度（像素）
 func (sps *RawSPS) Height() int {
-	h := (2-uint16(sps.FrameMbsOnlyFlag))*(sps.PicHeightInMapUnitsMinus1+1)*16 - sps.FrameCropTopOffset*2 - sps.FrameCropBottomOffset*2
-	return int(h)
+	_, cropUnitY := sps.cropUnits()
+	return (2-int(sps.FrameMbsOnlyFlag))*(int(sps.PicHeightInMapUnitsMinus1)+1)*16 - cropUnitY*(int(sps.FrameCropTopOffset)+int(sps.FrameCropBottomOffset))
 }
 
 // FrameRate Video frame rate
